@@ -9,10 +9,21 @@
 // the twin's allocations are made under __lsan_disable(); liveH / liveR = C handles / result slots that still own
 // something when the script ends, i.e. what the script itself failed to release; they are dropped before the leak
 // check so that LeakSanitizer attributes whatever is unreachable to this sequence and not to the next one).
+// Allocation failure (std::bad_alloc): the executable replaces the global `operator new` / `operator new[]` (they forward
+// to the next definition in link order: ASan's, or libstdc++'s in the as-shipped build, so that the new/delete pairing
+// checks of ASan stay intact).  Inside the measured window of the C call and of the twin call every request is counted
+// and its size hashed; an op decorated with `A:<k>` makes the k-th request (k = 0, 1, ..) of the C call throw
+// std::bad_alloc, and the k-th request of the twin call as well.  Every R line ends with
+//   | aC=<requests>:<fired 0|1>:<hash of the sizes> aT=<requests>:<fired>:<hash>
+// so that the runner can (a) check that the wrappers whose C++ operation the model classifies as `canThrow = false` make
+// no request at all, (b) see whether the twin's requests are the ones the wrapper makes (same sizes in the same order up
+// to the failing one), and (c) compare status / object state / heap after a failed allocation like after any other failure.
 // usage: c18_harness <script> <fixture-dir>       (script: FIX <seed> / SEQ <id> <nh> / op lines / END)
 #include "common.h"
 #include <fstream>
 #include <cstdarg>
+#include <new>
+#include <dlfcn.h>
 #include <unistd.h>
 #include <sys/stat.h>
 #if defined(__SANITIZE_ADDRESS__)
@@ -23,6 +34,23 @@ extern "C" { size_t __sanitizer_get_current_allocated_bytes(void); void __lsan_d
 #define HAVE_SAN 0
 #endif
 using namespace psv;
+
+// ---------------------------------------------------------------- operator new: counting + injected std::bad_alloc
+struct AllocWin { long n; int fired; uint64_t h; };
+static struct { bool open; long countdown; AllocWin w; } INJ = {false, -1, {0, 0, 0}};
+static inline void* inj_request(size_t n, const char* sym, void* (**real)(size_t)) {
+  if (!*real) { *real = (void* (*)(size_t))dlsym(RTLD_NEXT, sym); if (!*real) { fputs("no next operator new\n", stderr); abort(); } }
+  if (INJ.open) {
+    if (INJ.countdown == 0) { INJ.countdown = -1; INJ.w.fired = 1; throw std::bad_alloc(); }
+    if (INJ.countdown > 0) INJ.countdown--;
+    INJ.w.n++; INJ.w.h = (INJ.w.h ^ (uint64_t)n) * 1099511628211ULL;
+  }
+  return (*real)(n);
+}
+void* operator new(size_t n) { static void* (*real)(size_t) = nullptr; return inj_request(n, "_Znwm", &real); }
+void* operator new[](size_t n) { static void* (*real)(size_t) = nullptr; return inj_request(n, "_Znam", &real); }
+static inline void inj_open(long k) { INJ.w.n = 0; INJ.w.fired = 0; INJ.w.h = 1469598103934665603ULL; INJ.countdown = k; INJ.open = true; }
+static inline AllocWin inj_close() { INJ.open = false; INJ.countdown = -1; return INJ.w; }
 
 static long heap_now() {
 #if HAVE_SAN
@@ -203,12 +231,13 @@ static const char* rc_status(int rc) { return rc == 0 ? "z" : "nz"; }
 
 // ---------------------------------------------------------------- one op
 // returns false when the op was skipped (not applicable to the current state)
-static bool run_op(const std::vector<std::string>& w, Buf& c, Buf& t, long& dC, long& dT) {
+static bool run_op(const std::vector<std::string>& w, Buf& c, Buf& t, long& dC, long& dT, AllocWin& aC, AllocWin& aT) {
   const std::string& op = w[0];
-  dC = dT = 0;
+  dC = dT = 0; aC = aT = AllocWin{0, 0, 0};
   long a0, a1, a2;
-#define CSIDE(stmt) do { a0 = heap_now(); stmt; a1 = heap_now(); dC = a1 - a0; } while (0)
-#define TSIDE(stmt) do { fputs("c\n", stdout); fflush(stdout); lsan_off(); a1 = heap_now(); stmt; a2 = heap_now(); lsan_on(); dT = a2 - a1; } while (0)
+  long inject = -1; for (auto& x : w) if (x.compare(0, 2, "A:") == 0) inject = atol(x.c_str() + 2);
+#define CSIDE(stmt) do { a0 = heap_now(); inj_open(inject); stmt; aC = inj_close(); a1 = heap_now(); dC = a1 - a0; } while (0)
+#define TSIDE(stmt) do { fputs("c\n", stdout); fflush(stdout); lsan_off(); a1 = heap_now(); inj_open(inject); stmt; aT = inj_close(); a2 = heap_now(); lsan_on(); dT = a2 - a1; } while (0)
   if (op == "nddestroy") {
     int s = atoi(w[1].c_str());
     CSIDE(ndsparse_destroy(ND_C[s]); ND_C[s] = nullptr);
@@ -222,7 +251,7 @@ static bool run_op(const std::vector<std::string>& w, Buf& c, Buf& t, long& dC, 
   Table* cobj = (Table*)H[h].data;
   if (op == "init") {
     int rc; CSIDE(rc = splinetable_init(ch)); c.add("%s", rc_status(rc));
-    if (!ch) t.add("inv"); else { TSIDE(W[h] = new Table()); t.add("ok"); }
+    if (!ch) t.add("inv"); else { bool thrown = false; TSIDE(try { W[h] = new Table(); } catch (...) { thrown = true; }); t.add(thrown ? "throw" : "ok"); }
   } else if (op == "free") {
     CSIDE(splinetable_free(ch)); c.add("void data=%s", H[h].data ? "set" : "null");
     if (ch && H[h].data) H[h].data = nullptr;   // dangling: reported through data=set; do not touch the freed object below
@@ -233,7 +262,7 @@ static bool run_op(const std::vector<std::string>& w, Buf& c, Buf& t, long& dC, 
     const char* p = nullarg == "path" ? nullptr : path.c_str();
     int rc; CSIDE(rc = readsplinefitstable(p, ch)); c.add("%s", rc_status(rc));
     if (!p || !ch) t.add("inv");
-    else { bool thrown = false; TSIDE(delete W[h]; W[h] = nullptr; try { W[h] = new Table(path); } catch (...) { thrown = true; }); t.add(thrown ? "throw" : "ok"); }
+    else { bool thrown = false; TSIDE(delete W[h]; W[h] = nullptr; try { W[h] = new Table(p); } catch (...) { thrown = true; }); t.add(thrown ? "throw" : "ok"); }
   } else if (op == "readmem") {
     const std::string& src = w[2];
     std::pair<void*, size_t> m = src == "garbage" ? FX.garbagemem : src == "trunc" ? FX.truncmem : src == "trunc2" ? FX.trunc2mem : FX.tmem[src[1] - '0'];
@@ -241,7 +270,8 @@ static bool run_op(const std::vector<std::string>& w, Buf& c, Buf& t, long& dC, 
     struct splinetable_buffer* bp = nullarg == "buffer" ? nullptr : &b;
     int rc; CSIDE(rc = readsplinefitstable_mem(bp, ch)); c.add("%s", rc_status(rc));
     if (!bp || !b.data || !ch) t.add("inv");
-    else { int st = 0; TSIDE(if (!W[h]) W[h] = new Table(); try { st = W[h]->read_fits_mem(m.first, m.second) ? 0 : 1; } catch (...) { st = 2; }); t.add(st == 0 ? "ok" : st == 1 ? "fail" : "throw"); }
+    else { int st = 0; TSIDE(try { if (!W[h]) W[h] = new Table(); st = W[h]->read_fits_mem(m.first, m.second) ? 0 : 1; } catch (...) { st = 2; });
+      t.add(st == 0 ? "ok" : st == 1 ? "fail" : W[h] ? "throw" : "throw noobj"); }
   } else if (op == "writefile") {
     const std::string& dst = w[2];
     std::string pc = dst == "baddir" ? FX.baddir : FX.outC, pt = dst == "baddir" ? FX.baddir : FX.outT;
@@ -250,7 +280,7 @@ static bool run_op(const std::vector<std::string>& w, Buf& c, Buf& t, long& dC, 
     int rc; CSIDE(rc = writesplinefitstable(p, ch)); c.add("%s", rc_status(rc));
     if (rc == 0) c.add(" fh=%016llx", (unsigned long long)file_hash(pc));
     if (!p || !ch || !W[h]) t.add("inv");
-    else { bool thrown = false; TSIDE(try { W[h]->write_fits(pt); } catch (...) { thrown = true; }); t.add(thrown ? "throw" : "ok"); if (!thrown) t.add(" fh=%016llx", (unsigned long long)file_hash(pt)); }
+    else { bool thrown = false; const char* ptc = pt.c_str(); TSIDE(try { W[h]->write_fits(ptc); } catch (...) { thrown = true; }); t.add(thrown ? "throw" : "ok"); if (!thrown) t.add(" fh=%016llx", (unsigned long long)file_hash(pt)); }
   } else if (op == "writemem") {
     struct splinetable_buffer b; b.data = nullptr; b.size = 0; char dummy;
     if (nullarg == "occupied") b.data = &dummy;
@@ -336,7 +366,14 @@ static bool run_op(const std::vector<std::string>& w, Buf& c, Buf& t, long& dC, 
     int rc; CSIDE(rc = splinetable_glamfit(ch, dp, f.w.data(), f.cptr.data(), f.ord.data(), f.kptr.data(), f.nk.data(), f.smooth.data(), f.pord.data(), f.monodim, false));
     c.add("%s", rc_status(rc));
     if (!dp || !ch || !W[h]) t.add("inv");
-    else { bool thrown = false; TSIDE(try { W[h]->fit(f.data, f.w, f.coords, f.ord, f.knots, f.smooth, f.pord, f.monodim, false); } catch (...) { thrown = true; }); t.add(thrown ? "throw" : "ok"); }
+    else { bool thrown = false; TSIDE(try {
+        using photospline::detail::array_view; const struct ndsparse* d = &f.data;
+        array_view<double> wv(f.w.data(), d->rows);
+        std::vector<array_view<double>> cv(d->ndim); for (size_t i = 0; i < d->ndim; i++) cv[i].reset(f.cptr[i], d->ranges[i]);
+        array_view<uint32_t> ov(f.ord.data(), d->ndim);
+        std::vector<array_view<double>> kv(d->ndim); for (size_t i = 0; i < d->ndim; i++) kv[i].reset(f.kptr[i], f.nk[i]);
+        array_view<double> sv(f.smooth.data(), d->ndim); array_view<uint32_t> pv(f.pord.data(), d->ndim);
+        W[h]->fit(*d, wv, cv, ov, kv, sv, pv, f.monodim, false); } catch (...) { thrown = true; }); t.add(thrown ? "throw" : "ok"); }
     ndsparse_free(&f.data);
   } else if (op == "grideval") {
     // an object without data: grideval of the C++ core dereferences the (null) arrays unless it checks ndim first; the
@@ -361,7 +398,8 @@ static bool run_op(const std::vector<std::string>& w, Buf& c, Buf& t, long& dC, 
     CSIDE(rc = splinetable_grideval(ch, cp.data(), nc.data(), &res));
     c.add("%s", rc_status(rc));
     if (rc == 0 && res) { c.add(" nd=%016llx", (unsigned long long)nd_hash(res)); ND_C[s] = res; } else c.add(res ? " res=stale" : " res=null");
-    { bool thrown = false; TSIDE(try { ND_T[s] = tw->grideval(co).release(); } catch (...) { thrown = true; ND_T[s] = nullptr; });
+    { bool thrown = false; TSIDE(try { using photospline::detail::array_view; std::vector<array_view<double>> cv(nd); for (uint32_t i = 0; i < nd; i++) cv[i].reset(cp[i], nc[i]);
+          ND_T[s] = tw->grideval(cv).release(); } catch (...) { thrown = true; ND_T[s] = nullptr; });
       t.add(thrown ? "throw" : "ok"); if (!thrown) t.add(" nd=%016llx", (unsigned long long)nd_hash(ND_T[s])); else t.add(" res=null"); }
   } else if (op == "permute") {
     const Table* tw = W[h]; if (!tw) return false;
@@ -373,7 +411,7 @@ static bool run_op(const std::vector<std::string>& w, Buf& c, Buf& t, long& dC, 
     if (w[2] == "big" && nd > 0) p[r.below(nd)] = nd + r.below(3);
     std::vector<size_t> pc = p; size_t none[1] = {0};
     int rc; CSIDE(rc = splinetable_permute(ch, nd ? pc.data() : none)); c.add("%s", rc_status(rc));
-    bool thrown = false; TSIDE(try { W[h]->permuteDimensions(p); } catch (...) { thrown = true; }); t.add(thrown ? "throw" : "ok");
+    const size_t* pp = p.data(); bool thrown = false; TSIDE(try { std::vector<size_t> pv(nd); std::copy(pp, pp + nd, pv.begin()); W[h]->permuteDimensions(pv); } catch (...) { thrown = true; }); t.add(thrown ? "throw" : "ok");
   } else if (op == "convolve") {
     const Table* tw = W[h];
     if (!tw || !ch || nullarg == "knots") {
@@ -448,11 +486,12 @@ int main(int argc, char** argv) {
       printf("E %s sumC=%ld sumT=%ld lsan=%d liveH=%d liveR=%d\n", seq.c_str(), sumC, sumT, leak, liveH, liveR); fflush(stdout);
       fprintf(stderr, "@E %s\n", seq.c_str()); fflush(stderr); continue;
     }
-    Buf c, t; long dC, dT;
+    Buf c, t; long dC, dT; AllocWin aC, aT;
     printf("B %s %d %s\n", seq.c_str(), idx, w[0].c_str()); fflush(stdout);
-    bool done = run_op(w, c, t, dC, dT);
+    bool done = run_op(w, c, t, dC, dT, aC, aT);
     if (!done) printf("R %s %d %s skip\n", seq.c_str(), idx, w[0].c_str());
-    else { printf("R %s %d %s C %s | T %s | %ld %ld\n", seq.c_str(), idx, w[0].c_str(), c.s, t.s, dC, dT); sumC += dC; sumT += dT; }
+    else { printf("R %s %d %s C %s | T %s | %ld %ld | aC=%ld:%d:%016llx aT=%ld:%d:%016llx\n", seq.c_str(), idx, w[0].c_str(), c.s, t.s, dC, dT,
+                  aC.n, aC.fired, (unsigned long long)aC.h, aT.n, aT.fired, (unsigned long long)aT.h); sumC += dC; sumT += dT; }
     fflush(stdout); idx++;
   }
   for (auto& m : FX.tmem) free(m.first);
